@@ -44,7 +44,7 @@ GROUPS = [
                          "QScopy_prob_mpq_dbl", "QScopy_prob_mpq_mpf"],
           unwind=max_iter() + 2, object_bits=10, timeout=900,
           must_fail=["reach_end", "reach_optimal", "reach_infeasible"],
-          functions=["QSexact_solver", "QSexact_basis_status"], props=["C01", "C02"],
+          functions=["QSexact_solver", "QSexact_basis_status"], props=["C01", "C02", "C18"],
           note="precision ladder completely unwound (QS_EXACT_MAX_ITER + 2, unwinding assertions on)",
           assumed=[GATING_ASSUMED]),
     Group("exact/output", "exact_gating.c", tus=["exact.c"], model=MODEL, defines=["FN_output_copy"], dfcc=False, export_static=True, unwind=4, kind="bounded",
